@@ -297,7 +297,7 @@ fn hist_next(e: &mut Trio, rng: &mut Rng, step: u64) -> Option<String> {
             x
         }
     };
-    let roll = rng.below(100);
+    let roll = rng.below(103);
     let line = match roll {
         0..=37 => {
             // swap, all six directions; sometimes to a third party / with limits
@@ -437,6 +437,35 @@ fn hist_next(e: &mut Trio, rng: &mut Rng, step: u64) -> Option<String> {
         95..=97 => {
             let i = rng.below(3) as usize;
             format!("{} donate {i} {}", pre(u), sized(rng, v.r[i], v.users[u][i]))
+        }
+        100..=102 => {
+            // entry points a cw20-LP pool must refuse: direct WithdrawLiquidity {} with 0 / 1 / 2 coins,
+            // hooks arriving from the wrong token; amounts around the locked minimum and the sender's LP
+            let holders: Vec<usize> = (0..6).filter(|a| v.users[*a][3] > 0).collect();
+            let u = if holders.is_empty() || rng.chance(1, 2) { u } else { *rng.pick(&holders) };
+            let amt = match rng.below(8) {
+                0 => 1,
+                1 => 999,
+                2 => 1000,
+                3 => 3000,
+                4 | 5 => v.users[u][3].max(1),
+                6 => (v.lps / (1 + rng.below(8) as u128)).max(1),
+                _ => rng.range(1, 100_000) as u128,
+            };
+            match rng.below(6) {
+                0..=3 => {
+                    let sel = match rng.below(10) {
+                        0..=3 => rng.below(3),
+                        4..=6 => 3,
+                        7 => 4,
+                        8 => 5,
+                        _ => 6,
+                    };
+                    format!("{} wdirect {sel} {amt}", pre(u))
+                }
+                4 => format!("{} wfake {} {}", pre(u), rng.below(3), if rng.chance(1, 6) { 0 } else { amt }),
+                _ => format!("{} sfake {} {}", pre(u), rng.below(3), if rng.chance(1, 6) { 0 } else { amt.min(v.users[u][3]) }),
+            }
         }
         _ => {
             // malformed: foreign asset, same asset on both sides
